@@ -488,6 +488,17 @@ def check_kauri(spec):
         if not np.array_equal(np.asarray(lab4), np.asarray(m1.labels_)):
             fails.append({"key": "kauri:fit_predict-precomputed", "what": "labels returned by Kauri.fit_predict(X, K) differ from those of the named kernel",
                           "expected": np.asarray(m1.labels_).tolist(), "actual": np.asarray(lab4).tolist()})
+        with _w.catch_warnings():
+            _w.simplefilter("ignore")
+            m5 = Kauri(kernel="precomputed", **c)
+            m5.fit(X)                   # documented fall-back: a warning and the linear kernel for THIS call
+            k_after = m5.get_params()["kernel"]
+            m5.fit(X, A)
+        if k_after != "precomputed":
+            fails.append({"key": "kauri:warning-branch-rewrites-kernel", "what": f"Kauri(kernel='precomputed').fit(X) without a matrix left kernel={k_after!r}",
+                          "expected": "precomputed", "actual": k_after})
+        _cmp(fails, "kauri:matrix-after-forgotten-matrix", "Kauri.fit(X, K) after an earlier fit(X) that forgot the matrix vs the named kernel",
+             fw.kauri_state(m1), fw.kauri_state(m5))
         m3 = Kauri(kernel=spec["name"], **c).fit(X, junk)
         _cmp(fails, "kauri:named-ignores-y", "Kauri.fit(X, y) with a named kernel must not use y", fw.kauri_state(m1), fw.kauri_state(m3))
         _cmp(fails, "kauri:named-ignores-y", "Kauri.score(X, y) with a named kernel must not use y", [("s", float(s1))], [("s", float(m1.score(X, junk)))])
@@ -522,6 +533,26 @@ def check_reconfigured(spec):
     if not fw.same_bits(np.asarray(s1), np.asarray(s2)):
         fails.append({"key": "reconfigured:score", "what": f"{e}: score after reconfiguration {s1!r} differs from a fresh estimator's {s2!r}",
                       "expected": s2, "actual": s1})
+    # what one estimator's objective object is turned into by its user must not reach another estimator resolving the same name
+    ga = fresh.get_gemini()
+    before = {k: v for k, v in vars(ga).items()}
+    for attr, val in (("kernel", "rbf"), ("metric", "cityblock"), ("ovo", not bool(getattr(ga, "ovo", False))), ("epsilon", 0.25)):
+        if hasattr(ga, attr):
+            try:
+                setattr(ga, attr, val)
+            except Exception:
+                pass
+    other = E[e](**{**first, **second}, **c)
+    gb = other.get_gemini()
+    leaked = sorted(k for k in before if k in vars(gb) and vars(gb)[k] != before[k] and not callable(before[k]))
+    if gb is ga or leaked:
+        fails.append({"key": "reconfigured:shared-objective", "what": f"{e}: the objective object resolved for gemini={second.get('gemini', first.get('gemini'))!r} is shared between "
+                      f"estimators (attributes changed on one appear on another: {leaked or 'same object'})", "expected": "independent objects", "actual": leaked or "same object"})
+    for k, v in before.items():
+        try:
+            setattr(ga, k, v)
+        except Exception:
+            pass
     g1, g2 = m.get_gemini(), fresh.get_gemini()
     d1 = (fw.eval_owner(g1), bool(g1.ovo), getattr(g1, "kernel", None), getattr(g1, "metric", None))
     d2 = (fw.eval_owner(g2), bool(g2.ovo), getattr(g2, "kernel", None), getattr(g2, "metric", None))
